@@ -63,7 +63,9 @@ def add_rejections(h):
     # a store without a file also rejects a valid trajectory that no longer fits (nothing can be evicted to a file)
     kind = h.choice(4 if (in_memory and not fresh) else 3)
     if fresh:
-        kind = 2            # a new store takes its field sets and its use of flight identifiers from the first trajectory: only a missing required value is invalid for it
+        # a new store takes its field sets and its use of flight identifiers from the first trajectory: what is invalid for it
+        # is a missing required value - or a trajectory that does not fit into the whole cache (kind 4)
+        kind = [2, 4][h.choice(2)]
     h.ctx.named['rejection_kind'] = z3.IntVal(kind)
     indexable0 = st.attrs.get('indexable')
     if kind == 0:
@@ -73,6 +75,9 @@ def add_rejections(h):
     elif kind == 3:
         t = FieldedTraj(h.int('new_traj_id'), schema=7)
         I.hooks['cache_full'] = True
+    elif kind == 4:
+        t = FieldedTraj(h.int('new_traj_id'), schema=7, fid=h.int('new_flight_id'))
+        I.hooks['cache_smaller_than_a_trajectory'] = True
     else:
         t = FieldedTraj(h.int('new_traj_id'), schema=7, missing_required=True)
 
@@ -103,8 +108,38 @@ def add_rejections(h):
                                                                    z3.Implies(z3.And(q >= 0, q < length0), f.rows(q) == rows0(q))),
                      note=repr(e.inst))
         return
-    h.fail('invalid-addition-is-rejected', ['different field sets', 'inconsistent identifier use', 'missing required value', 'a trajectory that no longer fits'][kind]
+    h.fail('invalid-addition-is-rejected', ['different field sets', 'inconsistent identifier use', 'missing required value', 'a trajectory that no longer fits', 'a trajectory larger than the whole cache'][kind]
            + ' was accepted' + (' by an in-memory store' if in_memory else ''))
+
+
+@unit('C10', 'add.first-addition-to-a-store-with-associated-files', FUNCS, replay='contracts.C10:replay_add')
+def add_first_associated(h):
+    """A new file store declared with an associated file for field set 'extra'; its first trajectory lacks that field set.
+    The addition must be rejected as what it is (ValueError) before anything is created or counted."""
+    I = h.I
+    install_store_models(h, I)
+    cache = make_cache(h, I, in_memory=False)
+    st = make_store(h, I, 'CREATE', None, cache, next_index=0, indexable=None, pending=True)
+    st.attrs['associated_fieldsets'] = {'extra'}
+    st.attrs['associated_files'] = [('extra.nc', ['extra'])]
+    created = []
+    h.trust('TrajectoryStore._create by contract: creates the base and the associated NetCDF files (a state change)')
+    h.summary(TS + '._create', lambda I_, fi, a, k: created.append('files'))
+
+    def write_data(I_, fi, a, k):
+        I_.raise_('AttributeError', "Container has no attribute 'x1'")       # what reading a field of an absent field set does
+    h.summary(TS + '._write_data', write_data)
+    t = FieldedTraj(h.int('new_traj_id'), schema=7, fieldsets={'base'})
+    try:
+        h.method(st, 'add', t)
+    except PyExc as e:
+        h.ensure('rejection-is-a-named-refusal', h.exc_is(e, 'ValueError') or h.exc_is(e, 'RuntimeError'), note=repr(e.inst))
+        h.ensure('rejected-addition-creates-no-files', not created and st.attrs.get('_file_creation_pending') is True)
+        h.ensure('rejected-addition-leaves-length-and-next-index', len(cache.attrs['__entries__']) == 0 and
+                 z3.is_true(z3.simplify(to_z3(h.getattr(st, '_next_index')) == 0)))
+        h.ensure('rejected-addition-leaves-the-identifier-mode', st.attrs.get('indexable') is None)
+        return
+    h.fail('invalid-addition-is-rejected', 'a trajectory without the field set of the associated file was accepted')
 
 
 def run_merge(h, files, kwargs=None):
@@ -366,6 +401,49 @@ def replay_add(payload):
                         problems.append(f'{what}: reopened store has {len(r)} trajectories, {n0 + 1} were added successfully')
             except Exception as e:   # noqa
                 problems.append(f'{what}: close / reopen failed: {type(e).__name__}: {e}')
+        # a new file store declared with an associated file: a first trajectory without that field set
+        TrajectoryStore.active_in_thread = None
+        b, a_ = os.path.join(tmp, 'assoc-b.nc'), os.path.join(tmp, 'assoc-a.nc')
+        ts = TrajectoryStore.create(base_file=b, associated_files=[(a_, ['c10_extra'])])
+        try:
+            try:
+                ts.add(_mk(0))
+                problems.append('first trajectory without the field set of the associated file: accepted')
+            except (ValueError, RuntimeError):
+                pass
+            except Exception as e:   # noqa
+                problems.append(f'first trajectory without the field set of the associated file: surfaced as {type(e).__name__}: {e}')
+            if len(ts) != 0 or ts._next_index != 0 or os.path.exists(b) or os.path.exists(a_):
+                problems.append(f'after that rejected first addition: length {len(ts)}, next index {ts._next_index}, files created: '
+                                f'{[os.path.basename(p) for p in (b, a_) if os.path.exists(p)]}')
+            try:
+                if ts.add(with_extra(1)) != 0:
+                    problems.append('the valid first addition after it did not get index 0')
+            except Exception as e:   # noqa
+                problems.append(f'the valid first addition after it is refused: {type(e).__name__}: {e}')
+        finally:
+            try:
+                ts.close()
+            except Exception:   # noqa
+                pass
+        # a new in-memory store whose first trajectory (with a flight id) is larger than the whole cache
+        TrajectoryStore.active_in_thread = None
+        ts = TrajectoryStore.create(cache_size_mb=1)
+        try:
+            try:
+                ts.add(_mk(0, n=40000, fid=5))
+                problems.append('a 40000-point trajectory accepted by a 1 MiB in-memory store')
+            except (ValueError, RuntimeError):
+                pass
+            try:
+                ts.add(_mk(1))
+            except Exception as e:   # noqa
+                problems.append(f'after a first trajectory that was too large (and had a flight id), a valid trajectory without one is refused: {type(e).__name__}: {e}')
+        finally:
+            try:
+                ts.close()
+            except Exception:   # noqa
+                pass
         # an in-memory store that is full: the trajectory that no longer fits is rejected, the others stay
         TrajectoryStore.active_in_thread = None
         ts = TrajectoryStore.create(cache_size_mb=1)
